@@ -12,7 +12,7 @@ def run():
         b = vrun.build()
     finally:
         splice.VACUITY = False
-    res = vrun.run_verus(b['text'], extra_args=[], tag='vacuity')
+    res = vrun.run_verus(b['text'], extra_args=['--rlimit', '10'], tag='vacuity')
     lines = b['text'].split('\n')
     marks = {}
     for i, l in enumerate(lines, 1):
@@ -26,8 +26,13 @@ def run():
                 for ln in range(s['line_start'], s['line_end'] + 1):
                     if ln in marks:
                         failed.add(marks[ln])
-    vacuous = sorted(set(marks.values()) - failed)
-    return {'injected': len(marks), 'refuted': len(failed), 'not_refuted': vacuous}
+    # a function that runs out of resources on the injected assertion did not derive `false` either (inconclusive,
+    # but certainly no cheap contradiction): its sites are listed separately
+    fails, tool = vrun.classify(res, b['text'], b['registry'])
+    rl_fns = {t['fn'] for t in tool if t['fn'] and 'imit' in t['msg']}
+    inconclusive = sorted(m for m in set(marks.values()) - failed if any(m.startswith(f) for f in rl_fns))
+    vacuous = sorted(set(marks.values()) - failed - set(inconclusive))
+    return {'injected': len(marks), 'refuted': len(failed), 'resource_limit_hit': inconclusive, 'not_refuted': vacuous}
 
 if __name__ == '__main__':
     r = run()
